@@ -90,6 +90,33 @@ func (m *permissionMap) deleteIf(addr net.Addr, p *permission) {
 	}
 }
 
+// deleteIfIdle removes the entry of addr when it still is p and p has not
+// been granted meanwhile. Test and removal are one step with markPermitted.
+func (m *permissionMap) deleteIfIdle(addr net.Addr, p *permission) {
+	m.mutex.Lock()
+	defer m.mutex.Unlock()
+
+	key := ipnet.FingerprintAddr(addr)
+	if m.permMap[key] == p && p.state() == permStateIdle {
+		delete(m.permMap, key)
+	}
+}
+
+// markPermitted enters addr as permitted, in one step with deleteIfIdle: a
+// writer that gives up on its own request cannot drop the entry afterwards.
+func (m *permissionMap) markPermitted(addr net.Addr) {
+	m.mutex.Lock()
+	defer m.mutex.Unlock()
+
+	key := ipnet.FingerprintAddr(addr)
+	p, ok := m.permMap[key]
+	if !ok {
+		p = &permission{addr: cloneAddr(addr)}
+		m.permMap[key] = p
+	}
+	p.setState(permStatePermitted)
+}
+
 func (m *permissionMap) addrs() []net.Addr {
 	m.mutex.RLock()
 	defer m.mutex.RUnlock()
